@@ -582,21 +582,34 @@ func c11OneCase(job *c11Job, c *c11Case, work string, lb *c11LogBuf, phase func(
 func c11Busy() string {
 	buf := make([]byte, 8<<20)
 	buf = buf[:runtime.Stack(buf, true)]
+	best, bestRank := "", 99
 	for _, g := range strings.Split(string(buf), "\n\n") {
 		lines := strings.Split(g, "\n")
 		if len(lines) < 2 || strings.Contains(g, "c11Busy") {
 			continue // the watchdog itself
 		}
-		if !strings.Contains(lines[0], "[running") && !strings.Contains(lines[0], "[runnable") && !strings.Contains(lines[0], "[GC assist") {
+		rank := 0
+		switch {
+		case strings.Contains(lines[0], "[running"):
+		case strings.Contains(lines[0], "[runnable"), strings.Contains(lines[0], "[GC assist"):
+			rank = 1
+		default:
 			continue
 		}
 		for _, l := range lines[1:] {
 			if m := c11FrameRe.FindStringSubmatch(l); m != nil {
-				return strings.TrimPrefix(m[1], "github.com/sourcegraph/zoekt/")
+				fn := strings.TrimPrefix(m[1], "github.com/sourcegraph/zoekt/")
+				if strings.HasSuffix(fn, ".Close") {
+					rank += 2 // unmapping a file is never the loop
+				}
+				if rank < bestRank {
+					best, bestRank = fn, rank
+				}
+				break
 			}
 		}
 	}
-	return ""
+	return best
 }
 
 func TestVerif_C11_Child(t *testing.T) {
